@@ -321,6 +321,83 @@ def explore(chk, rng, n_random, n_dfs, tag):
             chk.corr_break("rendezvous-trace", dict(inp, schedule=res["schedule"][:400]), impl, model)
 
 
+def two_connections(chk, rng, n):
+    """two applications = two connections = two Worker objects built by the REAL Worker.__init__ (with the simulation's
+    primitives as its manager): Hop-by-Hop identifiers are unique per connection only, so callers on different connections may
+    wait under the same identifier. Each must get the answer of its own connection and return (specification only, no model
+    replay: the Lean model is one registry)."""
+    import types
+    import bromelia.bromelia as BB
+    from bromelia.base import DiameterRequest, DiameterAnswer
+    from bromelia.avps import SessionIdAVP
+    for k in range(n):
+        if chk.saturated():
+            break
+        seed = rng.randrange(2 ** 30)
+        how = rng.choice(["random", "pct", "random-lines"])
+        s = simlib.Sim(seed=seed, trace_files=("bromelia/bromelia.py",) if how == "random-lines" else (), trace_funcs=TRACE_FUNCS,
+                       max_steps=60000, timeout_prob=0)
+        s.keep_log = False
+        s.spin_timeout = 8.0
+        mods, undo = simlib.install(s, [BB])
+        results, status, blocked, excs = {}, None, [], []
+        same = rng.random() < 0.7
+        try:
+            app, fake = c13.make_app(2, os.path.join(core.WORK, "c14b_%d.yaml" % os.getpid()))
+            manager = types.SimpleNamespace(Event=mods.threading.Event, Queue=mods.queue.Queue, Lock=mods.threading.Lock)
+            ws = {}
+            for app_id, fw in fake.items():
+                w = BB.Worker(types.SimpleNamespace(config=fw.app.config), manager)
+                w.sent = []
+                w.is_running = lambda: True
+                w.set_outgoing_message = (lambda msg, w=w: (s._yield(("worker.enqueue",)), w.sent.append(msg)))
+                ws[app_id] = w
+            app.associations = ws
+            ids = list(ws)
+            reqs = []
+            for i, app_id in enumerate(ids):
+                r = DiameterRequest(command_code=316, application_id=app_id)
+                r.header.hop_by_hop = (4242 if same else 4242 + i).to_bytes(4, "big")
+                r.append(SessionIdAVP(b"s;%d" % i))
+                reqs.append(r)
+            answers = []
+            for i, app_id in enumerate(ids):
+                a = DiameterAnswer(command_code=316, application_id=app_id)
+                a.header.hop_by_hop = reqs[i].header.hop_by_hop
+                a.append(SessionIdAVP(b"a;%d" % i))
+                answers.append(a)
+
+            def caller(i):
+                def f():
+                    results[i] = app.send_message(reqs[i])
+                return f
+
+            def peer():
+                order = list(range(len(ids)))
+                random.Random(seed).shuffle(order)
+                for i in order:
+                    s._yield(("peer.wait",), cond=lambda i=i: any(m is reqs[i] for m in ws[ids[i]].sent))
+                    mods.threading.Thread(name="D%d" % i, target=app.handler_pending_answers, args=(answers[i],)).start()
+            for i in range(len(ids)):
+                s.spawn(caller(i), "C%d" % i)
+            s.spawn(peer, "peer")
+            chooser = simlib.pct_chooser(random.Random(seed), 3, 300) if how == "pct" else None
+            status = s.run(chooser=chooser)
+            blocked = s.blocked()
+            excs = [(t.name, type(t.exc).__name__) for t in s.tasks if t.exc is not None]
+        finally:
+            s.kill()
+            undo()
+        inp = {"op": "two-connections", "same_hop_by_hop": same, "how": how, "seed": seed, "schedule": list(s.choices)[:1500]}
+        chk.case(inp, kind="two-connections:%s" % how)
+        got = {i: ("own" if results.get(i) is answers[i] else "other's" if any(results.get(i) is a for a in answers) else
+                   "nothing" if i not in results else "something else") for i in range(2)}
+        if status != "finished" or excs or any(v != "own" for v in got.values()):
+            chk.violation("callers waiting on two connections%s: not every caller got the answer of its own connection and returned"
+                          % (" under the same Hop-by-Hop identifier" if same else ""), inp, {0: "own", 1: "own"},
+                          {"got": got, "status": status, "blocked": [b[0] for b in blocked], "exceptions": excs})
+
+
 def run(chk):
     import logging
     logging.disable(logging.CRITICAL)
@@ -339,6 +416,7 @@ def run(chk):
                     "application process is not exercised (C13's FakeWorker convention)"]
     quick = chk.tier == "quick"
     explore(chk, rng, 120 if quick else 4000, 150 if quick else 6000, "sweep")
+    two_connections(chk, rng, 30 if quick else 1500)
 
     def search():
         explore(chk, rng, 400, 600, "search")
